@@ -32,6 +32,7 @@ def child(cmd, log_fd, ack_fd, shim):
                      plan["errno"], plan["persist"], plan["pause_before"], plan["pause_after"], plan["fixed_time"])
     w = None
     cursor = 0
+    kept = []
     try:
         for i, op in enumerate(ops):
             op = tuple(op)
@@ -59,6 +60,9 @@ def child(cmd, log_fd, ack_fd, shim):
             except BaseException as e:  # noqa: BLE001
                 rec["status"] = "exc"
                 rec["exc"] = type(e).__name__
+                # a recorder that logs / stores the error object keeps its traceback (and the frames it
+                # references) alive while it goes on to close the writer
+                kept.append(e)
             rec["opno_after"] = shim.drfshim_count()
             records.append(rec)
             emit("CALL", rec)
